@@ -319,6 +319,8 @@ func runC18(p *engine.Prog, r *engine.Report) {
 					}
 					if !okc {
 						probs = append(probs, "the loop continues under "+short(fi.T(iff.Cond).S)+", not 'ordinal >= requested count' (an off-by-one deletes a remaining shard's claim or leaves one behind)")
+					} else if ok, _ := fi.Implies(del.Block(), fi.Cond(bo)); !ok {
+						probs = append(probs, "a claim can be deleted without 'ordinal >= requested count' holding on the path")
 					}
 				}
 				// name
